@@ -454,6 +454,11 @@ func c04Alphabet(s *sessSys) []sessReq {
 						continue
 					}
 					add(fmt.Sprintf("mod-ufar-fwd-peer%d", pi), sessReq{sReq: sReq{Kind: kMod, Conn: c, UpdateFAR: []sFAR{{ID: 2, Action: ActionForward, HasFwd: true, HasDst: true, Dst: ie.DstInterfaceAccess, OHCIP: peer, OHCTEID: 0x7000 + uint32(pi)}}}, Sess: x.Idx})
+					if pi == 1 {
+						// the same update without Destination Interface in the Update Forwarding Parameters (the IE is conditional:
+						// "present if changed")
+						add("mod-ufar-fwd-peer1-no-dst-interface", sessReq{sReq: sReq{Kind: kMod, Conn: c, UpdateFAR: []sFAR{{ID: 2, Action: ActionForward, HasFwd: true, OHCIP: peer, OHCTEID: 0x7001}}}, Sess: x.Idx})
+					}
 				}
 				if f.Action&ActionBuffer == 0 {
 					if q1 := x.qer(1); q1 != nil && q1.GateDL == 0 && q1.QFI != 5 {
